@@ -163,6 +163,9 @@ func runProduct(pi *Prog, impl *ssa.Function, pr *Prog, ref *ssa.Function, alpha
 	res := &productResult{}
 	mi := NewMachine(pi, alpha)
 	installStringModels(mi)
+	if base := initState(mi, "version"); base.Status != stStuck {
+		mi.Base = base
+	}
 	mi.Curs = computeCursors(reachableRepoFuncs(impl))
 	mr := NewMachine(pr, alpha)
 	mr.Curs = computeCursors(reachableRepoFuncs(ref))
@@ -528,6 +531,9 @@ func checkWeights(p *Prog, r *Rule, cmp *ssa.Function) {
 	}
 	alpha := NewAlphabetSingletons(append([]byte(nil), versionAlphabet...))
 	m := NewMachine(p, alpha)
+	if base := initState(m, "version"); base.Status != stStuck {
+		m.Base = base
+	}
 	weights := map[byte]int64{}
 	for c := 0; c < alpha.N(); c++ {
 		st := m.NewState(wf, []Val{SymV{c}}, 0)
